@@ -115,6 +115,21 @@ theorem signBytes_reqOf {e : Env} (he : EnvOK e) {t : Int} {o : Cons.Output} {q 
 theorem vtyp_ne_proposal (ty : Cons.VType) : vtyp ty ≠ proposalType := by
   cases ty <;> decide
 
+theorem step_vtyp (ty : Cons.VType) : stepOfTyp (vtyp ty) = (ty.code : Int) := by
+  cases ty <;> decide
+
+theorem reqStep_vote (ty : Cons.VType) (h r pol : Int) (bid : BlockID) (ts : Int) (chain : String) :
+    reqStep ⟨.vote, vtyp ty, h, r, pol, bid, ts, chain⟩ = some (ty.code : Int) := by
+  cases ty <;> rfl
+
+theorem sigKey_inj {o o' : Cons.Output} {k : Nat × Nat × Cons.Payload}
+    (h : Cons.sigKey o = some k) (h' : Cons.sigKey o' = some k) : o = o' := by
+  have hh := h.trans h'.symm
+  cases o <;> cases o' <;> simp [Cons.sigKey] at hh ⊢
+  all_goals (try (cases ‹Cons.VType›))
+  all_goals (try (cases ‹Cons.VType›))
+  all_goals simp_all [Cons.VType.code, Cons.sigKey]
+
 theorem payloadOf_sbOf {e : Env} (he : EnvOK e) {t : Int} {o : Cons.Output} {sb : SB}
     {r cd : Nat} {p : Cons.Payload} (hs : e.sbOf t o = some sb) (hk : Cons.sigKey o = some (r, cd, p)) :
     e.payloadOf sb = p ∧ sb.h = e.H ∧ sb.r = r ∧ stepOfTyp sb.typ = cd := by
@@ -133,7 +148,7 @@ theorem payloadOf_sbOf {e : Env} (he : EnvOK e) {t : Int} {o : Cons.Output} {sb 
     refine ⟨?_, rfl, rfl, ?_⟩
     · simp only [Env.payloadOf, vtyp_ne_proposal ty, if_false]
       cases bid <;> simp [he.inv]
-    · cases ty <;> decide
+    · exact step_vtyp ty
   | schedule => simp [Env.sbOf] at hs
   | decide => simp [Env.sbOf] at hs
   | panic => simp [Env.sbOf] at hs
@@ -146,13 +161,12 @@ theorem reqStep_reqOf {e : Env} {t : Int} {o : Cons.Output} {q : Req} {r cd : Na
     simp only [Env.reqOf, Option.some.injEq] at hq; subst hq
     simp only [Cons.sigKey, Option.some.injEq, Prod.mk.injEq] at hk
     obtain ⟨rfl, rfl, rfl⟩ := hk
-    exact ⟨by decide, rfl, rfl⟩
+    exact ⟨rfl, rfl, rfl⟩
   | signVote ty r' bid =>
     simp only [Env.reqOf, Option.some.injEq] at hq; subst hq
     simp only [Cons.sigKey, Option.some.injEq, Prod.mk.injEq] at hk
     obtain ⟨rfl, rfl, rfl⟩ := hk
-    refine ⟨?_, rfl, rfl⟩
-    cases ty <;> decide
+    exact ⟨reqStep_vote ty _ _ _ _ _ _, rfl, rfl⟩
   | schedule => simp [Env.reqOf] at hq
   | decide => simp [Env.reqOf] at hq
   | panic => simp [Env.reqOf] at hq
@@ -173,15 +187,168 @@ theorem sbOf_eqModTs {e : Env} (he : EnvOK e) {t t' : Int} {o o' : Cons.Output} 
     simp only [Env.payloadOf, h1, h4, h5]
   · intro h
     subst h
-    have : o = o' := by
-      cases o <;> cases o' <;> simp [Cons.sigKey] at hk hk' <;> try (obtain ⟨rfl, rfl, rfl⟩ := hk; obtain ⟨h1, h2, h3⟩ := hk')
-      all_goals first
-        | (subst h1; cases h3; rfl)
-        | (subst h1; cases h3; rename_i t1 _ _ t2 _ _; cases t1 <;> cases t2 <;> simp [Cons.VType.code] at h2 <;> rfl)
-        | (simp [Cons.VType.code] at h2)
-        | (rename_i t1 _ _ ; cases t1 <;> simp [Cons.VType.code] at h2)
+    have : o = o' := sigKey_inj hk hk'
     subst this
     cases o <;> simp [Env.sbOf] at ha hb
     all_goals (subst ha; subst hb; simp [eqModTs])
+
+/-! explicit answers of one complete call on an idle signer -/
+
+theorem checkHRS_fresh_of_lt {l : LSS Sig} {h r st : Int} (hlt : hrsLt (lssHRS l) (h, r, st)) :
+    checkHRS l h r st = .fresh := by
+  unfold hrsLt lssHRS at hlt
+  simp only at hlt
+  unfold checkHRS
+  repeat' split
+  all_goals first | rfl | omega
+
+theorem call_fresh (sigOf : SB → Sig) (disk : LSS Sig) (rel : List (Rel Sig)) (q : Req) (st : Int) (sb : SB)
+    (hst : reqStep q = some st) (hchk : checkHRS disk q.h q.r st = .fresh) (hsb : signBytes q = some sb) :
+    call sigOf ⟨disk, disk, .idle, rel⟩ q none =
+      (⟨⟨q.h, q.r, st, some (sigOf sb), some sb⟩, ⟨q.h, q.r, st, some (sigOf sb), some sb⟩, .idle,
+        ⟨sb, sb, sigOf sb⟩ :: rel⟩, .ok sb (sigOf sb)) := by
+  simp [call, Sign.step, begin, hst, hchk, hsb, ticks]
+
+theorem call_err (sigOf : SB → Sig) (disk : LSS Sig) (rel : List (Rel Sig)) (q : Req) (st : Int) (er : Err)
+    (hst : reqStep q = some st) (hchk : checkHRS disk q.h q.r st = .err er) :
+    call sigOf ⟨disk, disk, .idle, rel⟩ q none = (⟨disk, disk, .idle, rel⟩, .err er) := by
+  simp [call, Sign.step, begin, hst, hchk, ticks]
+
+theorem call_same (sigOf : SB → Sig) (disk : LSS Sig) (rel : List (Rel Sig)) (q : Req) (st : Int)
+    (sb lsb : SB) (g : Sig)
+    (hst : reqStep q = some st) (hchk : checkHRS disk q.h q.r st = .same) (hsb : signBytes q = some sb)
+    (hl : disk.sb = some lsb) (hg : disk.sig = some g) :
+    call sigOf ⟨disk, disk, .idle, rel⟩ q none =
+      if eqModTs lsb sb = true then (⟨disk, disk, .idle, ⟨sb, lsb, g⟩ :: rel⟩, .ok lsb g)
+      else (⟨disk, disk, .idle, rel⟩, .err .conflict) := by
+  by_cases hts : eqModTs lsb sb = true
+  · have hb : begin ⟨disk, disk, .idle, rel⟩ q = (⟨disk, disk, .reusing sb lsb g, rel⟩, .none) := by
+      simp only [begin, hst, hchk, hsb, hl, hg, hts]
+      split <;> rfl
+    simp only [call, Sign.step, hb, ticks, hts, if_true]
+  · have hne : sb ≠ lsb := by
+      intro h; subst h; exact hts (eqModTs_refl _)
+    simp [call, Sign.step, begin, hst, hchk, hsb, hl, hg, hts, hne, ticks]
+
+theorem hrsLt_same_h (H a b c d : Int) : hrsLt (H, a, b) (H, c, d) ↔ a < c ∨ (a = c ∧ b < d) := by
+  show (H < H ∨ (H = H ∧ (a < c ∨ (a = c ∧ b < d)))) ↔ _
+  omega
+
+/-- a state file the composed system can be in: of a lower height, or of this height holding the
+sign bytes of a request of the consensus model -/
+def Good (e : Env) (l : LSS Sig) : Prop :=
+  l.h < e.H ∨ (l.h = e.H ∧ ∃ o t sb g, ∃ lr lc : Nat, ∃ lp,
+    Cons.sigKey o = some (lr, lc, lp) ∧ e.sbOf t o = some sb ∧ l.r = lr ∧ l.step = lc ∧
+    l.sb = some sb ∧ l.sig = some g)
+
+theorem absLss_low {e : Env} {l : LSS Sig} (h : l.h < e.H) : e.absLss l = none := by
+  unfold Env.absLss
+  have : ¬ l.h = e.H := by omega
+  simp [this]
+
+theorem absLss_at {e : Env} (he : EnvOK e) {l : LSS Sig} {o : Cons.Output} {t : Int} {sb : SB}
+    {lr lc : Nat} {lp : Cons.Payload} (hh : l.h = e.H) (hk : Cons.sigKey o = some (lr, lc, lp))
+    (hs : e.sbOf t o = some sb) (hr : l.r = lr) (hc : l.step = lc) (hsb : l.sb = some sb) :
+    e.absLss l = some (lr, lc, lp) := by
+  unfold Env.absLss
+  simp [hh, hsb, hr, hc, (payloadOf_sbOf he hs hk).1]
+
+/-- **The two signers agree.** For an idle real signer in a `Good` state and the consensus model's
+abstract signer holding its abstraction: `Cons.sign` releases a signature exactly when one complete
+call of the real signer returns one, the new states again correspond (and are `Good`), and a
+refusal of the abstract signer is an error answer of the real one that changes nothing. -/
+theorem sign_refines {e : Env} (he : EnvOK e) {c : Cons.Cfg} (hc : c.checkHRS = true) (sigOf : SB → Sig)
+    (disk : LSS Sig) (rel : List (Rel Sig)) (hg : Good e disk)
+    (s : Cons.NodeState) (hs : s.lss = e.absLss disk)
+    (o : Cons.Output) (round code : Nat) (p : Cons.Payload) (hk : Cons.sigKey o = some (round, code, p))
+    (t : Int) (q : Req) (hq : e.reqOf t o = some q) :
+    (∀ s', Cons.sign c s round code p = some s' →
+      ∃ disk' rel' sb sig, call sigOf ⟨disk, disk, .idle, rel⟩ q none = (⟨disk', disk', .idle, rel'⟩, .ok sb sig) ∧
+        s'.lss = e.absLss disk' ∧ Good e disk') ∧
+    (Cons.sign c s round code p = none →
+      ∃ er, call sigOf ⟨disk, disk, .idle, rel⟩ q none = (⟨disk, disk, .idle, rel⟩, .err er)) := by
+  obtain ⟨hst, hqh, hqr⟩ := reqStep_reqOf hq hk
+  have hsbq : signBytes q = e.sbOf t o := signBytes_reqOf he hq
+  obtain ⟨sb, hsb⟩ : ∃ sb, e.sbOf t o = some sb := by
+    cases o <;> simp [Cons.sigKey] at hk <;> exact ⟨_, rfl⟩
+  rw [hsb] at hsbq
+  -- the state a fresh signature leaves behind
+  have fresh_ok : checkHRS disk q.h q.r (code : Int) = .fresh →
+      ∃ disk' rel' sb' sig, call sigOf ⟨disk, disk, .idle, rel⟩ q none = (⟨disk', disk', .idle, rel'⟩, .ok sb' sig) ∧
+        some (round, code, p) = e.absLss disk' ∧ Good e disk' := by
+    intro hchk
+    refine ⟨_, _, _, _, call_fresh sigOf disk rel q _ sb hst hchk hsbq, ?_, ?_⟩
+    · exact (absLss_at he hqh hk hsb hqr rfl rfl).symm
+    · exact Or.inr ⟨hqh, o, t, sb, sigOf sb, round, code, p, hk, hsb, hqr, rfl, rfl, rfl⟩
+  rcases hg with hlow | ⟨hh, lo, lt, lsb, g, lr, lc, lp, hlk, hlsb, hlr, hlc, hdsb, hdsig⟩
+  · -- nothing signed at this height yet
+    have habs : s.lss = none := by rw [hs, absLss_low hlow]
+    have hchk : checkHRS disk q.h q.r (code : Int) = .fresh :=
+      checkHRS_fresh_of_lt (Or.inl (by rw [hqh]; exact hlow))
+    constructor
+    · intro s' hs'
+      unfold Cons.sign at hs'
+      simp only [hc, habs, Bool.not_true, Bool.false_eq_true, if_false] at hs'
+      cases hs'
+      exact fresh_ok hchk
+    · intro hn
+      unfold Cons.sign at hn
+      simp [hc, habs] at hn
+  · have habs : s.lss = some (lr, lc, lp) := by rw [hs]; exact absLss_at he hh hlk hlsb hlr hlc hdsb
+    have hHRS : lssHRS disk = (e.H, (lr : Int), (lc : Int)) := by simp [lssHRS, hh, hlr, hlc]
+    constructor
+    · intro s' hs'
+      rcases Cons.sign_some hc hs' with ⟨rfl, hl⟩ | ⟨rfl, hl⟩
+      · -- same (round, step, payload): the stored signature is reused
+        rw [habs] at hl
+        simp only [Option.some.injEq, Prod.mk.injEq] at hl
+        obtain ⟨h1, h2, h3⟩ := hl
+        subst h1; subst h2; subst h3
+        have hchk : checkHRS disk q.h q.r (lc : Int) = .same :=
+          checkHRS_eq_same (by rw [hHRS, hqh, hqr]) hdsb hdsig
+        have hts : eqModTs lsb sb = true := (sbOf_eqModTs he hlsb hsb hlk hk).2 rfl
+        refine ⟨disk, ⟨sb, lsb, g⟩ :: rel, lsb, g, ?_, hs, Or.inr ⟨hh, lo, lt, lsb, g, lr, lc, lp, hlk, hlsb, hlr, hlc, hdsb, hdsig⟩⟩
+        rw [call_same sigOf disk rel q _ sb lsb g hst hchk hsbq hdsb hdsig, if_pos hts]
+      · rcases hl with hn | ⟨lr', lc', lp', hl', hlt⟩
+        · rw [habs] at hn; cases hn
+        · rw [habs] at hl'
+          simp only [Option.some.injEq, Prod.mk.injEq] at hl'
+          obtain ⟨h1, h2, _⟩ := hl'
+          subst h1; subst h2
+          have hchk : checkHRS disk q.h q.r (code : Int) = .fresh := by
+            apply checkHRS_fresh_of_lt
+            rw [hHRS, hqh, hqr]
+            exact (hrsLt_same_h _ _ _ _ _).2 (by omega)
+          exact fresh_ok hchk
+    · intro hn
+      unfold Cons.sign at hn
+      simp only [hc, habs, Bool.not_true, Bool.false_eq_true, if_false] at hn
+      split at hn
+      · -- round regression
+        rename_i hgt
+        obtain ⟨er, her⟩ := checkHRS_regression (l := disk) (h := q.h) (r := q.r) (st := (code : Int))
+          (by rw [hHRS, hqh, hqr]; exact (hrsLt_same_h _ _ _ _ _).2 (by omega))
+        exact ⟨er, call_err sigOf disk rel q _ er hst her⟩
+      · split at hn
+        · split at hn
+          · rename_i hgt
+            obtain ⟨er, her⟩ := checkHRS_regression (l := disk) (h := q.h) (r := q.r) (st := (code : Int))
+              (by rw [hHRS, hqh, hqr]; exact (hrsLt_same_h _ _ _ _ _).2 (by omega))
+            exact ⟨er, call_err sigOf disk rel q _ er hst her⟩
+          · split at hn
+            · split at hn
+              · cases hn
+              · -- same round and step, other payload: conflicting data
+                rename_i hr hc1 hc2 hne
+                have h1 : lr = round := hr
+                have h2 : lc = code := hc2
+                subst h1; subst h2
+                have hchk : checkHRS disk q.h q.r (lc : Int) = .same :=
+                  checkHRS_eq_same (by rw [hHRS, hqh, hqr]) hdsb hdsig
+                have hts : ¬ eqModTs lsb sb = true := fun h => hne ((sbOf_eqModTs he hlsb hsb hlk hk).1 h)
+                refine ⟨.conflict, ?_⟩
+                rw [call_same sigOf disk rel q _ sb lsb g hst hchk hsbq hdsb hdsig, if_neg hts]
+            · cases hn
+        · cases hn
 
 end Tmv.Node04
